@@ -337,14 +337,42 @@ def make_symiter(ip, it):
         return SymIter("set", (it, enum), n,
                        lambda ip_, k: Sym(z3.Select(enum, term(k)), it.schema))
     if isinstance(it, SymMap):
-        vc = ip.vc
-        n = vc.fresh_int("maplen")
-        vc.assume(n >= 0)
-        sort = it.dom.sort().domain()
-        enum = vc.fresh("enum", z3.ArraySort(z3.IntSort(), sort))
-        return SymIter("mapkeys", (it, enum), n,
-                       lambda ip_, k: Sym(z3.Select(enum, term(k)), it.key_schema))
+        return map_symiter(ip, it, "keys")
+    if isinstance(it, Struct) and it.cls == "mapview":
+        return map_symiter(ip, it.f["m"], it.f["kind"])
     return None
+
+
+def map_symiter(ip, m, kind):
+    """iteration over a symbolic dict: an arbitrary duplicate free enumeration
+    enum[0..n) of its key set, with the ghost prefix sets done[k] =
+    {enum[j] | j < k} (done[0] = {}, done[n] = dom)."""
+    vc = ip.vc
+    n = vc.fresh_int("maplen")
+    vc.assume(n >= 0)
+    ksort = m.dom.sort().domain()
+    enum = vc.fresh("enum", z3.ArraySort(z3.IntSort(), ksort))
+    done = vc.fresh("done", z3.ArraySort(z3.IntSort(), z3.ArraySort(ksort, z3.BoolSort())))
+
+    def item(ip_, k):
+        key = Sym(z3.Select(enum, term(k)), m.key_schema)
+        if kind == "keys":
+            return key
+        ts = [z3.Select(a, key.t) for a in m.vals]
+        val, _ = unflatten(ts, m.shape)
+        return val if kind == "values" else (key, val)
+    si = SymIter("map" + kind, (m, enum), Sym(n), item)
+    si.enum, si.done, si.map = enum, done, m
+
+    def instantiate(vc_, k):
+        k = term(k)
+        vc_.assume(done[0] == z3.K(ksort, False))
+        vc_.assume(done[n] == m.dom)
+        vc_.assume(z3.Implies(z3.And(k >= 0, k < n),
+                              z3.And(done[k + 1] == z3.Store(done[k], enum[k], True),
+                                     z3.Not(done[k][enum[k]]), m.dom[enum[k]])))
+    si.instantiate = instantiate
+    return si
 
 
 class EnumVal:
